@@ -24,6 +24,53 @@ def cdiv(a, b):
     return q if (a >= 0) == (b >= 0) else -q
 
 
+# shapes that the random generator reaches only rarely: a signed operand after a binary operator followed by a further
+# term, nested products / quotients on the right of / and *, parenthesised sums
+PATTERNS = ["{A} * -{B} + 1", "{A} - -{B} + 10", "100 / -{K} - {A}", "{A} * -3 + 20", "-{A} + {B}", "- {A} * {B} + 2",
+            "{A} / ({K} * 2)", "{A} / (4 / 2)", "{A} - ({B} - 1)", "{A} * ({B} + 1)", "({A} + {B}) * -2 - 1",
+            "{A} - {B} * -{K} - 3", "64 / ({K} * 2) / 2", "{A} + -{B} * 2 + 1"]
+
+
+def c_eval(text, env):
+    """Value of an integer expression with C semantics (division truncates toward zero)."""
+    import ast as pyast
+
+    def ev(n):
+        if isinstance(n, pyast.Expression):
+            return ev(n.body)
+        if isinstance(n, pyast.Constant):
+            return n.value
+        if isinstance(n, pyast.Name):
+            return env[n.id]
+        if isinstance(n, pyast.UnaryOp):
+            v = ev(n.operand)
+            return -v if isinstance(n.op, pyast.USub) else v
+        a, b = ev(n.left), ev(n.right)
+        if isinstance(n.op, pyast.Add):
+            return a + b
+        if isinstance(n.op, pyast.Sub):
+            return a - b
+        if isinstance(n.op, pyast.Mult):
+            return a * b
+        if b == 0:
+            raise ZeroDivisionError
+        q = abs(a) // abs(b) * (1 if (a >= 0) == (b >= 0) else -1)
+        return q if isinstance(n.op, pyast.Div) else a - q * b
+    return ev(pyast.parse(text.strip(), mode="eval"))
+
+
+def gen_pattern(r, earlier):
+    def atom():
+        if earlier and r.random() < 0.6:
+            return r.choice(earlier)[0]
+        return str(r.choice([1, 2, 3, 5, 7, 12]))
+    text = r.choice(PATTERNS).replace("{A}", atom()).replace("{B}", atom()).replace("{K}", str(r.choice([2, 3, 5])))
+    try:
+        return text, c_eval(text, dict(earlier))
+    except ZeroDivisionError:
+        return "1", 1
+
+
 def gen_expr(r, earlier, depth, hostile):
     """Return (text, value) with C semantics; value None if out of the domain."""
     c = r.random()
@@ -85,7 +132,11 @@ def gen_enum(r, idx, hostile):
     cur = -1
     for i in range(n):
         name = "M%d_%d" % (idx, i)
-        if mask >> i & 1:
+        if mask >> i & 1 and r.random() < 0.3:
+            text, v = gen_pattern(r, earlier)
+            cur = v
+            members.append((name, text))
+        elif mask >> i & 1:
             for _ in range(20):
                 text, v = gen_expr(r, earlier, r.randint(0, 3), hostile)
                 if v is not None and -10 ** 6 < v < 10 ** 6 and "--" not in text.replace(" ", "") or (hostile and v is not None and -10 ** 6 < v < 10 ** 6):
